@@ -680,6 +680,9 @@ impl EventGen for Tag {
                 let (ev, bb) = if el.name == "svg"
                     && el.get_attr("xmlns").as_deref() == Some("http://www.w3.org/2000/svg")
                 {
+                    // (an element at this depth, like any other)
+                    context.inc_depth()?;
+                    context.dec_depth()?;
                     let raw = el.all_events(context);
                     register_raw_elements(&raw, context);
                     (raw.into_raw_output(), None)
